@@ -1,6 +1,8 @@
 package main
 
 import (
+	"fmt"
+	"os"
 	"go/ast"
 	"go/constant"
 	"go/types"
@@ -220,8 +222,9 @@ func evalFunctionTable(c *Ctx, a *Anchors) []*TableEntry {
 			return true
 		})
 	}
-	if lit == nil {
-		lost("function table literal (map[string]functionEntry) not found")
+	if lit == nil || os.Getenv("JPCHECK_TABLE_ABS") != "" {
+		// not written as one map literal: evaluate the constructor instead
+		return evalFunctionTableAbs(c, a)
 	}
 	var out []*TableEntry
 	for _, el := range lit.Elts {
@@ -319,6 +322,129 @@ func (c *Ctx) table() []*TableEntry {
 	if !c.tableDone {
 		c.A.Table = evalFunctionTable(c, c.A)
 		c.tableDone = true
+		if os.Getenv("JPCHECK_TABLE_DUMP") != "" {
+			for _, e := range c.A.Table {
+				fmt.Fprintf(os.Stderr, "TABLE %s name=%s handler=%s expref=%v args=%+v\n", e.Key, e.Name, e.Handler.Name(), e.HasExpRef, e.Args)
+			}
+		}
 	}
 	return c.A.Table
+}
+
+// evalFunctionTableAbs evaluates the function table by interpreting the
+// constructor of the function caller abstractly (no code runs): registration
+// lists, helper constructors, loops that fill the map and variadic argument
+// lists are looked through; the result is read off the abstract heap. Every
+// piece must come out constant, or the anchor is lost.
+func evalFunctionTableAbs(c *Ctx, a *Anchors) []*TableEntry {
+	x := c.newExec(UJSON, "function table constructor")
+	x.tableMode = true
+	x.limit = 2000000
+	var result *AV
+	var heap *Heap
+	n := 0
+	x.run(a.NewFCaller, nil, newHeap(), pathInfo{}, func(rets []AV, h *Heap, p pathInfo, fin *frame) {
+		n++
+		if len(rets) == 1 {
+			r := rets[0]
+			result, heap = &r, h
+		}
+	})
+	if n != 1 || result == nil {
+		lost("function table: the constructor %s has %d return paths under abstract evaluation (expected one)", fname(a.NewFCaller), n)
+	}
+	if len(x.gaps) > 0 {
+		for g := range x.gaps {
+			lost("function table: constructor not evaluable: %s", g)
+		}
+	}
+	// the map[string]functionEntry reachable from the returned object
+	var tbl *aobj
+	var find func(v AV, depth int)
+	seen := map[int]bool{}
+	find = func(v AV, depth int) {
+		if tbl != nil || depth > 4 || v.obj == 0 || seen[v.obj] {
+			return
+		}
+		seen[v.obj] = true
+		o := heap.objs[v.obj]
+		if o == nil {
+			return
+		}
+		if o.kind == 'm' && o.ents != nil {
+			tbl = o
+			return
+		}
+		for _, f := range o.fields {
+			find(f, depth+1)
+		}
+		find(o.v, depth+1)
+	}
+	find(*result, 0)
+	if tbl == nil {
+		lost("function table: no constant-keyed map reachable from what %s returns", fname(a.NewFCaller))
+	}
+	fi := func(name string) int { return fieldIndex(a.FEntryT, name) }
+	ai := func(name string) int { return fieldIndex(a.ArgSpecT, name) }
+	listElems := func(v AV, what string) []AV {
+		if v.k == 'L' && v.tri == 1 {
+			return nil
+		}
+		if v.k != 'L' || v.obj == 0 || heap.objs[v.obj] == nil || heap.objs[v.obj].kind != 'l' {
+			lost("function table: %s is not a constant list", what)
+		}
+		return heap.objs[v.obj].elems
+	}
+	var out []*TableEntry
+	for _, key := range tbl.entKeys {
+		ev := tbl.ents[key]
+		if ev.k != 'G' || ev.agg == nil {
+			lost("function table: entry %q is not a struct value", key)
+		}
+		f := ev.agg.fields
+		e := &TableEntry{Key: key, Pos: c.pos(tbl.entPos[key])}
+		if nm := f[fi("name")]; nm.k == 'S' && nm.sk {
+			e.Name = nm.s
+		} else {
+			lost("function table: entry %q: name not constant", key)
+		}
+		if h := f[fi("handler")]; h.k == 'U' && h.fn != nil {
+			e.Handler = h.fn
+		} else {
+			lost("function table: entry %q: handler is not a named function", key)
+		}
+		switch hb := f[fi("hasExpRef")]; {
+		case hb.k == 'B' && hb.tri == 1:
+			e.HasExpRef = true
+		case hb.k == 'B' && hb.tri == 2:
+		default:
+			lost("function table: entry %q: hasExpRef not constant", key)
+		}
+		for _, sv := range listElems(f[fi("arguments")], "arguments of "+key) {
+			if sv.k != 'G' || sv.agg == nil {
+				lost("function table: entry %q: argument specification is not a struct value", key)
+			}
+			var spec ArgSpecV
+			for _, tv := range listElems(sv.agg.fields[ai("types")], "types of "+key) {
+				if tv.k != 'S' || !tv.sk {
+					lost("function table: entry %q: type not constant", key)
+				}
+				spec.Types = append(spec.Types, tv.s)
+			}
+			switch vb := sv.agg.fields[ai("variadic")]; {
+			case vb.k == 'B' && vb.tri == 1:
+				spec.Variadic = true
+			case vb.k == 'B' && vb.tri == 2:
+			default:
+				lost("function table: entry %q: variadic not constant", key)
+			}
+			e.Args = append(e.Args, spec)
+		}
+		out = append(out, e)
+	}
+	if len(out) == 0 {
+		lost("function table: empty")
+	}
+	sort.Slice(out, func(i, j int) bool { return out[i].Key < out[j].Key })
+	return out
 }
